@@ -948,6 +948,80 @@ Proof.
   - rewrite Hblk. auto.
 Qed.
 
+(* ================================================================== G: non-vacuity of the representation invariant: the full triangle 012 built by the
+   transcribed operations represents the complex of all non-empty faces of [0;1;2] *)
+Definition full_triangle : cplx :=
+  fold_left (fun c e => add_edge_without_blockers c (fst e) (snd e)) (pairs_of [0; 1; 2])
+            (add_vertex (add_vertex (add_vertex empty_cplx))).
+Definition K_triangle : list Z -> bool := K_as (fun _ => false) [0; 1; 2].
+
+Lemma K_triangle_closed : closed K_triangle.
+Proof. apply add_simplex_closed. split; [reflexivity|]. intros s t H. discriminate H. Qed.
+
+Lemma K_triangle_spec t : K_triangle t = true <-> t <> [] /\ sub t [0; 1; 2].
+Proof. unfold K_triangle. rewrite K_as_spec. split; [intros [H|H]; [discriminate H | exact H] | intros H; right; exact H]. Qed.
+
+Lemma In_sub_single v b : In v b -> sub [v] b.
+Proof.
+  induction b as [|x b IH]; intros H; [destruct H|]. destruct H as [->|H].
+  - apply sub_take. apply sub_nil_l.
+  - apply sub_skip. auto.
+Qed.
+
+Lemma full_triangle_vertex v : contains_vertex full_triangle v = true <-> In v [0; 1; 2].
+Proof.
+  unfold contains_vertex. change (slots full_triangle) with 3. change (act full_triangle) with [0; 1; 2].
+  rewrite !andb_true_iff, smem_In. split; [tauto|]. intros H. split; auto.
+  simpl in H. destruct H as [<-|[<-|[<-|[]]]]; auto.
+Qed.
+
+Lemma contains_bad_vertex c t v : In v t -> contains_vertex c v = false -> contains c t = false.
+Proof.
+  intros Hv Hc. destruct t as [|x [|y r]].
+  - destruct Hv.
+  - destruct Hv as [->|[]]. exact Hc.
+  - rewrite contains_two. unfold contains_edges. apply andb_false_iff. left. apply andb_false_iff. left.
+    clear -Hv Hc. induction (x :: y :: r) as [|u l IH]; [destruct Hv|]. simpl. destruct Hv as [->|Hv].
+    + rewrite Hc. auto.
+    + rewrite (IH Hv). apply andb_false_r.
+Qed.
+
+Example full_triangle_represents : represents full_triangle K_triangle /\ closed K_triangle /\
+  inc [0; 1; 2] /\ K_triangle [0; 1; 2] = true /\ no_big_blocker 3 full_triangle [0] /\ K_triangle [0] = true /\
+  no_big_blocker 3 full_triangle [0; 1] /\ K_triangle [0; 1] = true.
+Proof.
+  assert (Hsorted : inc [0; 1; 2]) by (repeat constructor; lia).
+  assert (Hfin : forallb (fun t => Bool.eqb (contains full_triangle t) (K_triangle t)) (sublists [0; 1; 2]) = true)
+    by (vm_compute; auto).
+  rewrite forallb_forall in Hfin.
+  assert (Hblk : blk full_triangle = []) by (vm_compute; auto).
+  assert (Hnb : forall s, no_big_blocker 3 full_triangle s) by (intros s b Hb; rewrite Hblk in Hb; destruct Hb).
+  split; [|split; [apply K_triangle_closed|]; split; [exact Hsorted|]; split; [vm_compute; reflexivity|];
+            split; [apply Hnb|]; split; [vm_compute; reflexivity|]; split; [apply Hnb | vm_compute; reflexivity]].
+  split; [|split].
+  - intros t Ht. destruct (forallb (contains_vertex full_triangle) t) eqn:E.
+    + rewrite forallb_forall in E.
+      assert (Hi : incl t [0; 1; 2]) by (intros v Hv; apply full_triangle_vertex; auto).
+      assert (Hs : sub t [0; 1; 2]) by (apply (sorted_ssub_sub [0; 1; 2] t Ht Hsorted); apply ssub_incl; auto).
+      apply sublists_sub in Hs. specialize (Hfin t Hs). apply eqb_prop in Hfin. exact Hfin.
+    + assert (Hex : exists v, In v t /\ contains_vertex full_triangle v = false).
+      { clear -E. induction t as [|x t IH]; simpl in E; [discriminate|]. apply andb_false_iff in E. destruct E as [E|E].
+        - exists x. split; auto. left; auto.
+        - destruct (IH E) as [v [H1 H2]]. exists v. split; auto. right; auto. }
+      destruct Hex as [v [Hv Hc]]. rewrite (contains_bad_vertex _ t v Hv Hc).
+      symmetry. destruct (K_triangle t) eqn:Ek; auto. exfalso.
+      apply K_triangle_spec in Ek. destruct Ek as [_ Ek].
+      apply sub_incl in Ek. specialize (Ek v Hv). apply full_triangle_vertex in Ek. congruence.
+  - intros b. rewrite Hblk. split; [intros []|]. intros [Hb1 [[Hb2 [Hb3 Hb4]] Hb5]]. exfalso.
+    assert (Hi : incl b [0; 1; 2]).
+    { intros v Hv. assert (Hk : K_triangle [v] = true).
+      { apply Hb4; [apply In_sub_single; auto | | discriminate]. intros E. rewrite <- E in Hb5. simpl in Hb5. lia. }
+      apply K_triangle_spec in Hk. destruct Hk as [_ Hk]. apply sub_incl in Hk. apply Hk. left; auto. }
+    assert (Hs : sub b [0; 1; 2]) by (apply (sorted_ssub_sub [0; 1; 2] b Hb1 Hsorted); apply ssub_incl; auto).
+    assert (K_triangle b = true) by (apply K_triangle_spec; split; auto). congruence.
+  - rewrite Hblk. constructor.
+Qed.
+
 (* ================================================================== witnesses *)
 (* boundary of the tetrahedron 0123 built through the transcribed operations *)
 Definition complete4 : cplx :=
